@@ -688,13 +688,20 @@ fn mapping_clamp(ctx: &mut Ctx) {
 		}
 		let (o0, o1) = (r.f64_in(-50.0, 50.0), r.f64_in(-50.0, 50.0));
 		let e = easing_list(&mut r);
+		// the law does not depend on the unit the input is measured in: one case in three has its input range (and the probe
+		// distances) scaled by a power of ten between 1e-30 and 1e30 (a modulator may well produce values of that size)
+		let scale = if i % 3 == 2 { 10f64.powi(r.below(61) as i32 - 30) } else { 1.0 };
+		if scale != 1.0 {
+			ctx.count("mapping_cases_with_scaled_input_range", 1);
+		}
+		let (lo, hi) = (lo * scale, hi * scale);
 		let m = Mapping {
 			input_range: (lo, hi),
 			output_range: (o0, o1),
 			easing: e,
 		};
 		ctx.eval();
-		let d = r.log_in(1e-12, 1e6);
+		let d = r.log_in(1e-12, 1e6) * scale;
 		let dir = if hi > lo { 1.0 } else { -1.0 };
 		let at_lo = m.map(lo);
 		let at_hi = m.map(hi);
